@@ -12,11 +12,11 @@ namespace Libfive.Marching
 
 theorem canon_key_swap (a b c : Nat) : (canon (b, a, c)).1 = (canon (a, b, c)).1 := by
   simp only [canon]
-  split_ifs <;> dsimp only <;> simp only [Prod.mk.injEq] <;> omega
+  split_ifs <;> grind
 
 theorem canon_key_rot (a b c : Nat) : (canon (b, c, a)).1 = (canon (a, b, c)).1 := by
   simp only [canon]
-  split_ifs <;> dsimp only <;> simp only [Prod.mk.injEq] <;> omega
+  split_ifs <;> grind
 
 theorem canon_uniform (s : Vid → Bool) (f : Face) : faceUniform s (canon f).1 = faceUniform s f := by
   obtain ⟨a, b, c⟩ := f
